@@ -41,7 +41,7 @@ CLAIMS = {
         "mode counts exactly the values >= threshold*largest and clamps, two_site_svd cuts strictly less than its threshold and keeps "
         "at least two. PARTIAL: the reconstruction identity |theta-AB|^2 = discarded weight, the isometry of the advertised factor and "
         "the agreement of the three distributions are checked numerically against a dense SVD on generated tensors (search), not yet "
-        "mechanised; binary64 accumulation is compared bit-exactly with the model but the inequality is proved over Q. Extended: the reconstruction identity is now mechanised over any commutative ring with involution (truncation_error_is_discarded_weight); source tie by translation as in C08; wide-range spectra.",
+        "mechanised; binary64 accumulation is compared bit-exactly with the model but the inequality is proved over Q. Extended: the reconstruction identity is now mechanised over any commutative ring with involution (truncation_error_is_discarded_weight); source tie by translation as in C08; wide-range spectra. Exact ties at the relative cut (dyadic spectra, both LAPACK drivers bit-exact).",
         COMMON_NOTE + "Modelled, not verified: LAPACK returns a valid SVD with non-increasing non-negative values.",
         "DESIGN.md §3 C09"),
     "C14": (
@@ -62,7 +62,7 @@ CLAIMS = {
         "after j steps, that with sampling off the single column is the state at the total time for every grid with >= 2 points, "
         "and (PARTIAL: over Flocq's real-number model of binary64, 1 <= k <= 2^40, no underflow) that round(fl(fl(k*dt)/dt)) = k "
         "so the grid has k+1 points. The PrimFloat grid model is compared bit for bit (length, first, second, last element) with "
-        "AnalogSimParams.times on a (k, dt) sweep; all four solvers are searched for wrong result lengths / values at the total time. Extended: the expression assigned to AnalogSimParams.times is regenerated from the source and proved equal to the grid model; sweep over time units 1e-12..1e3; observable-reuse histories.",
+        "AnalogSimParams.times on a (k, dt) sweep; all four solvers are searched for wrong result lengths / values at the total time. Extended: the expression assigned to AnalogSimParams.times is regenerated from the source and proved equal to the grid model; sweep over time units 1e-12..1e3; observable-reuse histories. Dense back-ends: SolverClock model + clock traces (which grid point each entry is evaluated at, step lengths, t_eval); long horizons on 6-8 qubits.",
         COMMON_NOTE + "Axioms: the standard-library real-number axioms and classic (through Flocq) for C15_len_partial only. "
         "The bridge PrimFloat ops = Flocq rounding is not proved (sweep).",
         "DESIGN.md §3 C15"),
@@ -88,7 +88,7 @@ CLAIMS = {
         "_run_weak_sim on enumerated and random histories, serial and parallel (deterministic executor). The search runs real "
         "simulations: reused vs fresh noise-free results, deep equality of circuit/Hamiltonian/noise model before and after, one "
         "OS-seeded Generator per trajectory with distinct states. PARTIAL: statistical independence of separately OS-seeded "
-        "generators (also across forked workers) is a property of NumPy/the OS and is not modelled. Extended: layer-sampling histories (columns depend on the circuit of the run only).",
+        "generators (also across forked workers) is a property of NumPy/the OS and is not modelled. Extended: layer-sampling histories (columns depend on the circuit of the run only). Real pools of four workers: no trajectory repeats another of the same or previous run; generator-per-trajectory is a correspondence, not a demand.",
         COMMON_NOTE,
         "DESIGN.md §3 C20"),
     "C18": (
@@ -172,7 +172,7 @@ CLAIMS = {
         "by mpo_utils.iterate is compared densely with U1.U2^dagger (Qiskit) for arbitrary pairs with long-range gates, swaps, cz, cp. "
         "Search: equivalence_checker.run on re-synthesised (equivalent) pairs and near-miss pairs, both argument orders, several SVD "
         "thresholds. PARTIAL: the zone-by-zone MPO construction (temporal zones, SVD re-splitting, long-range gate MPOs) is tied "
-        "numerically, not mechanised. Extended: the zone-by-zone construction is now mechanised as a schedule (Checker.v): termination, each gate of circuit 1 applied once from the left and each gate of circuit 2 once conjugated from the right in dependency-preserving orders, hence value = U1.U2^dagger in every monoid with an anti-involution; the real application log is compared with the model; the verdict expression is regenerated from the source and proved equal to the model.",
+        "numerically, not mechanised. Extended: the zone-by-zone construction is now mechanised as a schedule (Checker.v): termination, each gate of circuit 1 applied once from the left and each gate of circuit 2 once conjugated from the right in dependency-preserving orders, hence value = U1.U2^dagger in every monoid with an anti-involution; the real application log is compared with the model; the verdict expression is regenerated from the source and proved equal to the model. One left/right application on the merged MPO tensor is now a theorem (entries of G.O and O.G^dagger over any commutative ring with involution).",
         COMMON_NOTE + "Axioms: standard-library real-number axioms.",
         "DESIGN.md §3 C04"),
     "C07": (
@@ -221,7 +221,7 @@ CLAIMS = {
         "recording identity kernels on random bond patterns and caps. PARTIAL: exactness of the local Krylov steps (C19), truncation "
         "error (C09), second order of the symmetric splitting / first order of BUG are not mechanised; the search checks norm and "
         "energy drift and the error against the dense exp(-iHt) at dt and dt/2 (ratio test above the noise floor) and the agreement "
-        "of the two integrator orders. Extended: step_ops (which operator tensors a step works with) with theorem and operator-identity trace incl. an MPO object rebuilt in place; wide 8-site chains (matrix-free local steps).",
+        "of the two integrator orders. Extended: step_ops (which operator tensors a step works with) with theorem and operator-identity trace incl. an MPO object rebuilt in place; wide 8-site chains (matrix-free local steps). BUG step list (bug.bug) modelled and traced: every site forward by one dt once, own operator tensor and environment blocks, truncation last.",
         COMMON_NOTE,
         "DESIGN.md §3 C05"),
     "C19": (
@@ -233,7 +233,7 @@ CLAIMS = {
         "applications of the real expm_krylov on invariant-subspace starts and on runs that can neither break down nor converge vs "
         "the dimension the skeleton predicts. PARTIAL (searched): floating-point Lanczos orthogonality, LAPACK, and the accuracy "
         "bound — expm_krylov / expm_arnoldi are compared with scipy.linalg.expm for Hermitian / non-Hermitian operators, deficient "
-        "starts, +-dt, sizes around the dense (128) and compiled (4096) switches; norm preservation on every path. Extended: defective generators, negative steps, dense-vs-matrix-free comparison.",
+        "starts, +-dt, sizes around the dense (128) and compiled (4096) switches; norm preservation on every path. Extended: defective generators, negative steps, dense-vs-matrix-free comparison. Nearly invariant Krylov spaces (weak blocks, near-eigenvector starts, small units) in the accuracy oracle.",
         COMMON_NOTE,
         "DESIGN.md §3 C19"),
     "C17": (
@@ -245,7 +245,7 @@ CLAIMS = {
         "coefficients on random matrices with the live states, the live dual frame reproducing random 4x4 matrices, Choi index order. "
         "PARTIAL (searched): pinv, sequence bookkeeping, weighted aggregation and the simulated segments — tomography.run + "
         "predict_final_state on held-out preparations and CPTP maps vs the partial trace of the dense evolution (L=2,3, one and two "
-        "segments, TJM and MCWF). Extended: aggregation/bookkeeping model (TomoAgg) with theorems and scripted-runner tie; several predictions per tensor; multi-segment MCWF.",
+        "segments, TJM and MCWF). Extended: aggregation/bookkeeping model (TomoAgg) with theorems and scripted-runner tie; several predictions per tensor; multi-segment MCWF. Read-only queries between predictions from one returned object.",
         COMMON_NOTE + "Axioms: standard-library real-number axioms.",
         "DESIGN.md §3 C17"),
 }
